@@ -50,6 +50,18 @@ def scenarios(tier):
                             sessions = [S(0, 1, True, False, maxNormalOrders=2), S(1, 3, True, True, maxNormalOrders=2, events=["PL"])]
                         sc[name] = Scenario(name, mkcfg(sessions, markets=markets, agents=ags, events=ev),
                                             meta=dict(limit_rule=dict(targets=targets, r=r, enabled=enabled)))
+                        if enabled and r == 0.25 and tick == 1.0 and len(targets) == 1 and shape != "rule_in_session1":
+                            # the same run with other events (a halt rule too wide to act, a fundamental shock on M2) listed
+                            # before / after the price limit rule
+                            import copy
+                            for first in (True, False):
+                                ev2 = dict(ev, HR={"class": "TradingHaltRule", "targetMarkets": ["M0", "M1"], "triggerChangeRate": 0.9375, "haltingTimeLength": 1},
+                                           FS={"class": "FundamentalPriceShock", "target": "M2", "triggerTime": 1, "priceChangeRate": 0.5, "shockTimeLength": 1})
+                                s2 = copy.deepcopy(sessions)
+                                s2[0]["events"] = ["HR", "FS", "PL"] if first else ["PL", "HR", "FS"]
+                                n2 = "%s-other_events_%s" % (name, "first" if first else "last")
+                                sc[n2] = Scenario(n2, mkcfg(s2, markets=markets, agents=ags, events=ev2),
+                                                  meta=dict(limit_rule=dict(targets=targets, r=r, enabled=enabled)))
     # two rules in one run: different target sets and different rates
     for (ta, ra), (tb, rb) in (((["M0"], 0.125), (["M1"], 0.25)), ((["M1"], 0.25), (["M0"], 0.125)), ((["M0", "M1"], 0.25), (["M2"], 0.125))):
         name = "two_rules:%s@%s+%s@%s" % ("+".join(ta), ra, "+".join(tb), rb)
